@@ -1,0 +1,15 @@
+//go:build verif
+
+package kfake
+
+// This file exists only under the `verif` build tag. It exports thin shims
+// over unexported types for the external model-based verification harness;
+// it changes no behaviour.
+
+// VerifPidWindow wraps a pidwindow (per-partition idempotent sequence window).
+type VerifPidWindow struct{ w pidwindow }
+
+// Push calls pidwindow.pushAndValidate.
+func (v *VerifPidWindow) Push(epoch int16, firstSeq, numRecs int32, baseOffset int64) (ok, dup bool, dupOffset int64) {
+	return v.w.pushAndValidate(epoch, firstSeq, numRecs, baseOffset)
+}
